@@ -584,13 +584,36 @@ def c03_r8(ctx: Ctx, rule):
     res = RuleResult()
     q0 = NSM + ".valid_qualified_name"
     loops = []
+    # Namespace methods that test `uri.startswith(self.uri)` themselves (qname, contains): delegating to them is the same test
+    prefix_testers = {m for m, mq in ctx.p.classes["prov.identifier.Namespace"].methods.items()
+                      if any(isinstance(c, ast.Call) and call_name(c) == "startswith" for c in calls_in(ctx.fn(mq).node))}
     for q in ctx.helper_closure(q0):
         fi = ctx.fn(q)
         for n in walk_function(fi.node):
-            if isinstance(n, ast.For) and any(isinstance(c, ast.Call) and call_name(c) == "startswith" for c in ast.walk(n)):
+            if isinstance(n, ast.For) and any(isinstance(c, ast.Call) and (call_name(c) == "startswith" or call_name(c) in prefix_testers) for c in ast.walk(n)):
                 loops.append((q, n))
     if not loops:
         raise AnalysisError("valid_qualified_name: URI compaction loop not found")
+    fresh = unused_prefix_summary(ctx)
+    for q, l in loops:
+        # last resort: a 'p:rest' string is compacted as a URI only when p is not a prefix bound in this scope
+        fi = ctx.fn(q)
+        splitvars = set()
+        for a in walk_function(fi.node):
+            if isinstance(a, ast.Assign) and isinstance(a.value, ast.Call) and call_name(a.value) in ("split", "partition") and a.value.args and isinstance(a.value.args[0], ast.Constant) and a.value.args[0].value == ":":
+                t0 = a.targets[0]
+                if isinstance(t0, (ast.Tuple, ast.List)) and t0.elts and isinstance(t0.elts[0], ast.Name):
+                    splitvars.add(t0.elts[0].id)
+        if splitvars:
+            g = get_cfg(ctx, q)
+            facts = notin_facts(ctx, q, g, fresh)
+            lns = g.nodes_of(l) or [node_of(g, l.iter)]
+            last = all(any(("notin", v) in facts[ln.id] for v in splitvars) for ln in lns)
+            res.ob("compaction loop is reached only when the text before ':' is not a bound prefix (%s not in self): %s" % (sorted(splitvars), last))
+            if not last:
+                res.fail(rule.id, "compaction-before-prefix-lookup", ctx.loc(q, l),
+                         "a 'prefix:local' string can be compacted as a URI although its prefix is bound in this scope (the loop is not guarded by `%s not in self`)" % sorted(splitvars)[0],
+                         "prefix doi -> https://doi.org/ plus a namespace whose URI is 'doi:10.1000/': the name doi:10.1000/182 handed out for https://doi.org/10.1000/182 re-resolves to the URI 'doi:10.1000/182'")
     for q, l in loops:
         it = norm(l.iter)
         ok = it in ("self.values()", "self.items()", "list(self.values())", "self")
@@ -862,3 +885,71 @@ def _with_inlined_manager(fn):
 for _rules in RULES.values():
     for _r in _rules:
         _r.fn = _with_inlined_manager(_r.fn)
+
+
+RULES.setdefault("C18", []).append(Rule("C18.R11", "no lossy prefix strip (shared with C03.R6): a full-URI lookup key is cut at the front only", 0, _with_inlined_manager(c03_r6), "F-TAINT",
+                                        "get_record('<namespace URI><local part containing the namespace URI again>') finds the record"))
+
+
+# ------------------------------------------------------------------------------------------ URIs and names are opaque text
+TEXT_REWRITERS = {"urllib.parse.quote", "urllib.parse.quote_plus", "urllib.parse.unquote", "urllib.parse.unquote_plus", "urllib.parse.urlunsplit",
+                  "urllib.parse.urlunparse", "urllib.parse.urljoin", "urllib.parse.urldefrag", "urllib.parse.urlsplit", "urllib.parse.urlparse",
+                  "urllib.parse.quote_from_bytes", "urllib.request.pathname2url", "urllib.request.url2pathname", "unicodedata.normalize",
+                  "html.unescape", "urllib.quote", "urllib.unquote", "urlparse.urlparse", "urlparse.urlsplit", "posixpath.normpath", "os.path.normpath"}
+
+
+def opaque_text_rule(ctx: Ctx, rule):
+    """The library treats URIs, prefixes and local names as opaque strings: `uri = namespace.uri + localpart`, equality is string
+    equality.  Any percent-(de)coding, URL splitting/re-assembling or Unicode normalisation of such text changes URIs (quote is
+    not idempotent; urlunsplit(urlsplit(u)) drops an empty '#'; NFC merges distinct names).  Who may call these functions: only
+    the code that turns a *destination path or file: URL* into a local file name (closure of ProvDocument.serialize/deserialize)."""
+    res = RuleResult()
+    DOC_ = M + ".ProvDocument"
+    allowed = set()
+    for e in (DOC_ + ".serialize", DOC_ + ".deserialize", "prov.read"):
+        if e in ctx.p.functions:
+            allowed |= set(ctx.helper_closure(e, 2))
+    allowed = {a for a in allowed if not a.startswith("prov.identifier.") and ".NamespaceManager." not in a and ".ProvRecord." not in a}
+    n_calls = 0
+    for q, fi in ctx.p.functions.items():
+        if fi.module.startswith("scripts.") or isinstance(fi.node, ast.Lambda):
+            continue
+        local_imports = {}
+        for st in ast.walk(fi.node):
+            if isinstance(st, ast.ImportFrom) and st.module:
+                for al in st.names:
+                    local_imports[al.asname or al.name] = "%s.%s" % (st.module, al.name)
+            elif isinstance(st, ast.Import):
+                for al in st.names:
+                    local_imports[al.asname or al.name.split(".")[0]] = al.name if al.asname else al.name.split(".")[0]
+        for c in calls_in(fi.node):
+            origin = None
+            r = ctx.p.resolve_dotted(fi.module, c.func) if dotted(c.func) else None
+            if r and r[0] == "ext":
+                origin = r[1]
+            d0 = dotted(c.func)
+            if origin is None and d0 and d0.split(".")[0] in local_imports:
+                origin = ".".join([local_imports[d0.split(".")[0]]] + d0.split(".")[1:])
+            elif isinstance(c.func, ast.Attribute) and c.func.attr == "geturl":
+                origin = "urllib.parse.<result>.geturl"
+            if origin is None or not (origin in TEXT_REWRITERS or origin.endswith(".geturl")):
+                continue
+            n_calls += 1
+            ok = q in allowed
+            res.ob("%s calls %s: inside the file-destination code: %s" % (short(q) if q.count(".") > 2 else q, origin, ok))
+            if not ok:
+                res.fail(rule.id, "uri-text-rewritten::%s::%s" % (q, origin), ctx.loc(q, c),
+                         "%s passes text through %s (%s): URIs, prefixes and names are opaque strings everywhere outside the file-destination code" % (short(q) if q.count(".") > 2 else q, origin, norm(c)[:50]),
+                         "a URI containing '%20', a non-ASCII character, a trailing '#' or a decomposed accent comes back (or is compared) as a different URI")
+    res.ob("calls to URL / Unicode rewriting functions in the package: %d (allowed only in %s)" % (n_calls, sorted(short(a) for a in allowed)))
+    if DOC_ + ".serialize" not in ctx.p.functions:
+        raise AnalysisError("anchor vanished: ProvDocument.serialize")
+    return res
+
+
+for _p, _r, _d in (("C03", "C03.R13", "resolving, re-homing and printing never change a URI"), ("C06", "C06.R10", "the PROV-N text denotes the URIs the document holds"),
+                   ("C01", "C01.R12", "URIs survive the JSON round trip unchanged"), ("C02", "C02.R10", "URIs survive the XML round trip unchanged"),
+                   ("C07", "C07.R9", "every URI is unchanged by the RDF round trip"), ("C08", "C08.R11", "unified() re-creates namespaces with the same URIs"),
+                   ("C09", "C09.R11", "flattened/update/add_bundle re-home names without changing URIs"), ("C10", "C10.R11", "emitted URIs are the in-memory URIs"),
+                   ("C11", "C11.R13", "loaded URIs are the URIs of the text")):
+    RULES.setdefault(_p, []).append(Rule(_r, "URIs, prefixes and names are opaque text: URL / Unicode rewriting functions are called only by the file-destination code", 1, opaque_text_rule, "F-WRITE", _d))
